@@ -308,6 +308,16 @@ func (db *DB) ReleaseHaltLock(ctx context.Context, id int64) {
 	TraceLog.Printf("[ReleaseHaltLock.Done(%s)]:", db.name)
 }
 
+// HaltLockID returns the identifier of the halt lock currently held on this
+// node on behalf of a replica. Returns zero if no halt lock is held.
+func (db *DB) HaltLockID() int64 {
+	curr := db.haltLockAndGuard.Load().(*haltLockAndGuard)
+	if curr == nil {
+		return 0
+	}
+	return curr.haltLock.ID
+}
+
 // EnforceHaltLockExpiration unsets the HALT lock if it has expired.
 func (db *DB) EnforceHaltLockExpiration(ctx context.Context) {
 	curr := db.haltLockAndGuard.Load().(*haltLockAndGuard)
